@@ -107,8 +107,23 @@ impl Vm {
     })
   }
 
-  /// Create a new module
+  /// Create a new module that is the root of a package of the same name
   pub(super) fn module(&mut self, name: &str, path: &str) -> Ref<Module> {
+    let module = self.sub_module(name, path);
+    let hooks = GcHooks::new(self);
+    hooks.push_root(module);
+
+    let package = hooks.manage(Package::new(module.name(), module));
+    hooks.pop_roots(1);
+
+    self.packages.insert(module.name(), package);
+    module
+  }
+
+  /// Create a new module inside of an existing package. It is reached
+  /// through its parent module only, a module named like a package
+  /// must not take the place of that package
+  pub(super) fn sub_module(&mut self, name: &str, path: &str) -> Ref<Module> {
     let id = self.emitter.emit();
     let hooks = GcHooks::new(self);
 
@@ -119,12 +134,8 @@ impl Vm {
     hooks.push_root(module_class);
 
     let module = hooks.manage(Module::new(&hooks, module_class, path, id));
-    hooks.push_root(module);
+    hooks.pop_roots(1);
 
-    let package = hooks.manage(Package::new(name, module));
-    hooks.pop_roots(2);
-
-    self.packages.insert(name, package);
     module
   }
 
@@ -182,7 +193,7 @@ impl Vm {
             let file_id = self.files.upsert(path, source_content);
             self.pop_roots(1);
 
-            let module = self.module(&module_name, &path);
+            let module = self.sub_module(&module_name, &path);
             if let Err(err) = parent_module.insert_module(module) {
               match err {
                 ModuleInsertError::ModuleAlreadyExists => todo!(),
